@@ -266,6 +266,19 @@ impl Rig {
                     }
                 }
             }
+            2 => {
+                // poor producer: it can pay for two stakes, then has to wait until one unlocks
+                if params.social_stake > 0 {
+                    iss.push((keys[0].0, 2 * params.social_stake + 7));
+                } else {
+                    iss.push((keys[0].0, 2_000_000));
+                }
+                for k in 2..6usize {
+                    for i in 0..8u64 {
+                        iss.push((keys[k].0, 400_000 + 1000 * i + k as u64));
+                    }
+                }
+            }
             _ => {
                 for i in 0..8u64 {
                     iss.push((keys[0].0, 2_000_000 + i));
@@ -2216,7 +2229,7 @@ fn random_spec(rig: &Rig, plan: &Plan, rng: &mut Rng, round: usize) -> RoundSpec
     let mut fork = false;
     let mut items2 = vec![];
     if round >= 2 {
-        match rng.below(16) {
+        match rng.below(if plan.profile == 2 { 4 } else { 16 }) {
             0 => {
                 peer_block = true;
                 items2.push(Item::Transfer { payer: rng.range(2, 5) as usize, fee: *rng.pick(&[0u64, 20, 300, 30_000]), hops: 1, biggest: false });
@@ -2389,6 +2402,15 @@ fn scripted_spec(rig: &Rig, plan: &Plan, round: usize) -> Option<RoundSpec> {
                 Some(RoundSpec { inject_aged: false, via_thread: false, inject_conflict: false, peer_own: true, peer_block: false, fork: false, items2: vec![], items: vec![], gt: GtSpec::None, gap: big, label: "idle-while-the-second-node-produces".to_string() })
             } else {
                 Some(RoundSpec { inject_aged: false, via_thread: false, inject_conflict: false, peer_own: false, peer_block: false, fork: false, items2: vec![], items: plain_items, gt: GtSpec::Valid, gap: big, label: "producer-stakes".to_string() })
+            }
+        }
+        // staking on and a producer that can pay for two stakes only: while its stakes are locked
+        // bundle_block must decline (the second node keeps the chain moving), afterwards it stakes again
+        22 => {
+            if round < 2 {
+                Some(RoundSpec { inject_aged: false, via_thread: false, inject_conflict: false, peer_own: false, peer_block: false, fork: false, items2: vec![], items: plain_items, gt: GtSpec::None, gap: big, label: "producer-stakes".to_string() })
+            } else {
+                Some(RoundSpec { inject_aged: false, via_thread: round % 3 == 1, inject_conflict: false, peer_own: true, peer_block: false, fork: false, items2: vec![], items: plain_items, gt: GtSpec::Valid, gap: big, label: "stake-may-be-locked".to_string() })
             }
         }
         // the leave-out filter of Block::create, fed by injection (no real path reaches it any more)
@@ -2566,12 +2588,13 @@ fn main() {
         Plan { kind: 19, seed: 0, gp: 3, stake: 50_000, hb: 10_000, profile: 0, target_blocks: 14, adversarial: 0, thorough: false },
         Plan { kind: 19, seed: 0, gp: 5, stake: 50_000, hb: 10_000, profile: 0, target_blocks: 16, adversarial: 0, thorough: false },
         Plan { kind: 20, seed: 0, gp: 3, stake: 0, hb: 10_000, profile: 0, target_blocks: 12, adversarial: 0, thorough: false },
+        Plan { kind: 22, seed: 0, gp: 8, stake: 50_000, hb: 10_000, profile: 2, target_blocks: 12, adversarial: 0, thorough: false },
     ];
     for _ in 0..nrandom {
         let gp = *rng.pick(&[3u64, 3, 5, 5, 8, 8, 20]);
         let stake = if rng.chance(1, 3) { 50_000 } else { 0 };
         let hb = *rng.pick(&[100u64, 10_000, 10_000]);
-        let profile = if rng.chance(1, 5) { 1 } else { 0 };
+        let profile = if stake > 0 && rng.chance(1, 4) { 2 } else if rng.chance(1, 5) { 1 } else { 0 };
         let target = match rng.below(4) {
             0 => rng.range(2, gp + 1),
             1 => gp + 1 + rng.range(1, 3),
